@@ -404,11 +404,18 @@ func (c *Ctx) rangeFuncLoop(s *State, fr *Frame, x *ssa.Call, cl ClosureV, pf *s
 	if !ok {
 		unsup("range-over-func body result")
 	}
+	// the body always rewrites its state variable (it is not part of the body's modifies clause: protocol state of the
+	// lowering): 0 when the loop continues, one of its exit codes otherwise (constrained below)
+	c.storeAt(s, jumpCell, intT, c.freshVal(s, "rf.jump", intT))
 	// continue: invariant re-established, path ends
 	sT := s.clone()
 	c.nextPathID++
 	sT.pathID = c.nextPathID
 	c.assume(sT, rs.T)
+	{
+		cur := c.loadAt(sT, nil, jumpCell, intT).(Scalar)
+		c.assume(sT, fmt.Sprintf("(= %s %s)", cur.T, c.ar.idx(0)))
+	}
 	if lc != nil {
 		env := c.loopEnv(sT, fr, nil)
 		for i, inv := range lc.Invariants {
